@@ -3,13 +3,13 @@ CONSTANTS
     Quorum = 1
     MaxEpoch = 3
     MaxImm = 1
-    LabelChecked = FALSE
+    LabelChecked = TRUE
     AtomicSeal = FALSE
     RegSets = {{p1}}
     MaxCerts = 3
     MaxDepthHist = 0
     ExcuseDoubleCert = TRUE
-    ExcuseRelabel = TRUE
+    ExcuseRelabel = FALSE
 SPECIFICATION Spec
 VIEW view
 CONSTRAINT Bound
